@@ -24,7 +24,7 @@ import (
 type Options struct {
 	VerifyOnly bool `json:"verify_only,omitempty"`
 	TxManager  bool `json:"tx_manager,omitempty"`
-	Manager    bool `json:"node_manager,omitempty"` // register the node with a NodeManager
+	Manager    bool `json:"node_manager,omitempty"`    // register the node with a NodeManager
 	Preload    bool `json:"preload_headers,omitempty"` // the repository already holds blocks 1 and 2 (learned from another peer)
 }
 
@@ -213,7 +213,10 @@ func start(opt Options, with *Session) *Session {
 			s.TxManager.Run(s.Ctx)
 		}()
 	}
-	if opt.Manager {
+	if opt.Manager && with != nil && with.Manager != nil {
+		s.Manager = with.Manager
+		s.Manager.VerifAddNode(s.Node)
+	} else if opt.Manager {
 		s.Manager = bitcoin_reader.NewNodeManager("/verif/", cfg, s.Headers, s.Peers)
 		if s.TxManager != nil {
 			s.Manager.SetTxManager(s.TxManager)
